@@ -792,8 +792,23 @@ def _(it, ci, a, d):
     return StringV(sv(a[0]))
 
 
+class AbsChars:
+    """chars() of a string whose content is abstract: only count() is supported; the number of chars
+    of a UTF-8 string of n bytes is between ceil(n/4) and n (a fresh symbolic value)"""
+    _k = [0]
+
+    def __init__(self, n):
+        self.n = n
+
+    def next(self):
+        raise Inconclusive('iteration over the chars of an abstract string')
+
+
 @model('str::chars')
 def _(it, ci, a, d):
+    v = deref(a[0])
+    if type(v) is AbsStr or (type(v) is StringV and v.s is None):
+        return Opaque('AbsChars', AbsChars(slen(v)))
     return Opaque('Chars', PyIter([Char(c) for c in sv(a[0])]))
 
 
@@ -1349,6 +1364,13 @@ def _(it, ci, a, d):
 
 @itermethod('count')
 def _(it, ci, a, d):
+    src = a[0]
+    if type(src) is Opaque and src.kind == 'AbsChars':
+        n = src.data.n
+        AbsChars._k[0] += 1
+        c = z3.Int('charcount_%d' % AbsChars._k[0])
+        it.assume(z3.And(c >= 0, c <= n, 4 * c >= n))
+        return c
     return sum(1 for _ in iter_drain(it, a[0]))
 
 
